@@ -19,7 +19,7 @@ RULE = ('case = (set of task full names over confusable segment alphabets, query
         'strict (segment-boundary suffix) and liberal (component-wise suffix) readings; non-trivial = query has >=2 '
         'structural matches, or exactly one match via a shortened form while a textually confusable other name '
         '(prefix/suffix related segment) is present; distinct = hash(sorted name set, query)')
-REQUIRED = ['fn_queries', 'short_form_inputs_bound', 'multi_match_queries', 'must_raise_ambiguous', 'winner_required', 'chain_queries',
+REQUIRED = ['fn_queries', 'short_form_inputs_bound', 'self_named_input_cases', 'multi_match_queries', 'must_raise_ambiguous', 'winner_required', 'chain_queries',
             'input_registry_queries', 'permutations_checked']
 ASSUMPTIONS = ['"shorter form" = the whole namespace and/or the whole group path dropped (partial namespace/group paths '
                'must not match)',
@@ -177,7 +177,7 @@ def check_set(names, rng, res: CaseResult, perm_limit=24, where='fn'):
 
 # ---- through real chains ------------------------------------------------------------------------------------------
 
-def build_chain(names, tmp, with_consumer=True, short_inputs=None):
+def build_chain(names, tmp, with_consumer=True, short_inputs=None, self_inputs=None):
     """Real chain whose task full names are exactly `names` (+ a consumer that has all of them as inputs)."""
     from taskchain import Config, Task
     from taskchain.data import JSONData  # noqa
@@ -188,7 +188,8 @@ def build_chain(names, tmp, with_consumer=True, short_inputs=None):
         # one class per group-qualified name; the per-namespace config value `p` makes every task a distinct computation
         if (slug_g, nm) not in classes:
             meta = type('Meta', (), {'name': nm, 'parameters': [Parameter('p')],
-                                     **({'task_group': ':'.join(slug_g)} if slug_g else {})})
+                                     **({'task_group': ':'.join(slug_g)} if slug_g else {}),
+                                     **({'input_tasks': list(self_inputs[(slug_g, nm)])} if self_inputs and (slug_g, nm) in self_inputs else {})})
 
             def run(self) -> int:
                 return 1
@@ -226,9 +227,54 @@ def build_chain(names, tmp, with_consumer=True, short_inputs=None):
     return root.chain()
 
 
+def check_self_named_input(names, rng, res: CaseResult, tmp):
+    """one of the tasks itself declares an input by a short form that also matches the declaring task (`clean:users` asks for `users`)"""
+    by_ns = {}
+    for n in names:
+        by_ns.setdefault(parse(n)[0], []).append(n)
+    cands = []
+    for ns, members in by_ns.items():
+        for n in members:
+            _, g, nm = parse(n)
+            if sum(1 for m in names if parse(m)[1:] == (g, nm)) != 1:
+                continue     # the class is used in one namespace only (a declaration on the class must not reach other namespaces)
+            if any(m != n and parse(m)[2] == nm for m in members):
+                cands.append((ns, members, n))
+    if not cands:
+        return
+    ns, members, n = rng.choice(cands)
+    rel = [fmt((), *parse(m)[1:]) for m in members]
+    me = fmt((), *parse(n)[1:])
+    q = parse(n)[2]
+    exp, M = oracle(q, rel)
+    if exp[0] == 'either':
+        return
+    res.count('self_named_input_cases')
+    wit = {'names': names, 'declaring_task': n, 'input': q}
+    try:
+        chain = build_chain(names, tmp, with_consumer=False, self_inputs={parse(n)[1:]: [q]})
+        built, err = True, None
+    except Exception as e:
+        built, err = False, f'{type(e).__name__}: {str(e)[:150]}'
+    must_fail = exp[0] == 'raise' or exp[1] == me
+    if must_fail and built:
+        bound = chain.tasks[n].input_tasks.task_list
+        res.violate(f'task {n} of chain {sorted(names)} declares the input `{q}`, which matches {M} in its namespace (' +
+                    ('no match is the less nested form of the others' if exp[0] == 'raise' else 'the less nested match is the task itself') +
+                    f'): construction must fail, but the input was bound to {[str(b) for b in bound]}', witness=wit)
+    elif not must_fail and not built:
+        res.violate(f'task {n} of chain {sorted(names)} declares the input `{q}` which resolves uniquely to {exp[1]}, but construction failed: {err}', witness=wit)
+    elif not must_fail:
+        want = chain.tasks[fmt(ns, *parse(exp[1])[1:])]
+        got = chain.tasks[n].input_tasks.task_list
+        if len(got) != 1 or got[0] is not want:
+            res.violate(f'task {n} of chain {sorted(names)}: input `{q}` bound to {[str(b) for b in got]}, expected {exp[1]}', witness=wit)
+
+
 def check_chain(names, rng, res: CaseResult):
     tmp = tempfile.mkdtemp(prefix='c10-')
     try:
+        check_self_named_input(names, rng, res, tmp)
         # dependants with short-form inputs: per namespace, for some tasks declared exactly there, a form without the group that the rule
         # resolves to that task among the tasks of this namespace (inputs are looked up in the dependant's own namespace)
         short_inputs, short_expect = {}, {}
